@@ -75,6 +75,16 @@ func init() {
 				r := simrt.NewRNG(op.Val)
 				copy(b[off:], r.Bytes(len(b)-off))
 			}
+		case "pad":
+			// trailing bytes up to size Val (random from seed Off; Off == 0: zeros): a frame
+			// followed by garbage that its own length field, rewritten when N&1, claims
+			if t := int(op.Val); t > len(b) && t <= 65535 {
+				if off != 0 {
+					b = append(b, simrt.NewRNG(uint64(off)).Bytes(t-len(b))...)
+				} else {
+					b = append(b, make([]byte, t-len(b))...)
+				}
+			}
 		case "zero":
 			n := op.N >> 1
 			for i := off; i >= 0 && i < len(b) && i < off+n; i++ {
@@ -166,11 +176,26 @@ func randomFault(r *simrt.RNG, b []byte, marks []hlib.Mark, lo int, keepFraming 
 			cand = append(cand, m)
 		}
 	}
-	k := r.Pick(38, 14, 10, 10, 6, 6, 6, 4, 3, 3)
+	k := r.Pick(36, 13, 9, 9, 6, 6, 6, 4, 3, 3, 5)
 	if len(cand) == 0 && k == 0 {
 		k = 1
 	}
 	switch k {
+	case 10: // grown: the frame is followed by extra bytes, up to the largest frame there is
+		sizes := []int{len(b) + 1, len(b) + 8, 2048, 2049, 65535, 65535}
+		t := sizes[r.Intn(len(sizes))]
+		if t <= len(b) {
+			t = 65535
+		}
+		seed := 0
+		if r.Chance(0.5) {
+			seed = 1 + r.Intn(1<<30)
+		}
+		fix := r.Intn(2)
+		if keepFraming {
+			fix = 1
+		}
+		return FaultOp{Op: "pad", Off: seed, Val: uint64(t), N: fix}
 	case 0: // a length/count/type field set to an interesting value
 		m := cand[r.Intn(len(cand))]
 		vals := fieldValues(m.Width, readField(b, m), len(b), len(b)-m.Off)
